@@ -335,16 +335,18 @@ Definition sxhash_m (x : obj) : option N := hsum x.      (* & 0x7fffffffffffffff
 (* ------------------------------------------------------------------------------------------------ *)
 (* 7. The hash table: map[Object]Object                                                              *)
 
-(* Go's == on interface values used as map keys *)
+(* which stored key an operation reaches: Go's == on interface values used as map keys, after HashTable.Key *)
 Inductive gokey :=
 | KNil | KTru | KFix (z : Z) | KFlt (k : fkind) (m e : Z) | KChr (c : N) | KStr (s : list N) | KSym (s : list N)
-| KPtr (kind : N) (word : N)       (* *Bignum 0, *Ratio 1, *Vector 2: pointer identity *)
+| KBig (z : Z) | KRat (n d : Z)     (* *Bignum, *Ratio: Go would compare the pointers; HashTable.Key resolves the key to the
+                                      stored key of the same Go type that is Equal (repair C16-5), so the VALUE decides *)
+| KPtr (kind : N) (word : N)       (* *Vector 2: pointer identity *)
 | KUnhashable.                     (* slip.List: not comparable in Go; HashTable.Key signals a type-error (repair C16-4) *)
 Definition gokey_of (r : ref) : gokey :=
   match r_obj r with
   | Nil => KNil | Tru => KTru | Fix z => KFix z | Flt k m e => KFlt k m e | Chr c => KChr c
   | Str s => KStr s | Sym s => KSym s
-  | Big _ => KPtr 0 (r_word r) | Rat _ _ => KPtr 1 (r_word r) | Vec _ => KPtr 2 (r_word r)
+  | Big z => KBig z | Rat n d => KRat n d | Vec _ => KPtr 2 (r_word r)
   | Lst _ | Tl _ => KUnhashable
   end.
 Definition gokey_eqb (a b : gokey) : bool :=
@@ -354,6 +356,8 @@ Definition gokey_eqb (a b : gokey) : bool :=
   | KFlt k m e, KFlt k' m' e' => fkind_eqb k k' && dy_eqb (m, e) (m', e')
   | KChr x, KChr y => (x =? y)%N
   | KStr x, KStr y | KSym x, KSym y => lN_eqb x y
+  | KBig x, KBig y => x =? y                                   (* Bignum.Equal on a *Bignum: Cmp *)
+  | KRat n d, KRat n' d' => n * d' =? n' * d                   (* Ratio.Equal on a *Ratio: big.Rat.Cmp *)
   | KPtr k w, KPtr k' w' => (k =? k')%N && (w =? w')%N
   | _, _ => false
   end.
